@@ -443,13 +443,27 @@ class Inliner:
             return None
         if shape == "yieldfrom" and not is_gen:
             return None
-        if not is_gen and _returns_in_loops(fn.body):
+        tail_return = shape == "return" and not is_gen and _returns_in_loops(fn.body) and not (
+            _contains(fn.body, (ast.Try,)) and any(isinstance(n, ast.Try) and n.finalbody for s0 in fn.body for n in _walk_same_scope(s0)))
+        if not is_gen and _returns_in_loops(fn.body) and not tail_return:
             return None
         b = self.bind(fn, recv, decos, call)
         if b is None:
             return None
         mapping, prologue, suffix = b
         body = self.instantiate(fn, mapping)
+        if tail_return:
+            # `return helper(...)`: the helper's own returns (also those inside its loops) are the caller's returns
+            if not _always_returns(body):
+                fin0 = ast.Return(value=ast.Constant(value=None))
+                ast.copy_location(fin0, st)
+                ast.fix_missing_locations(fin0)
+                _set_module(fin0, getattr(st, "_module", None))
+                body = body + [fin0]
+            hcls = getattr(fn, "_parent", None) if isinstance(getattr(fn, "_parent", None), ast.ClassDef) else None
+            body = self.expand_block(body, fn._module, hcls or cls, depth + 1, stack | {qualname_of(fn)})
+            self.inlined_calls.append(f"{qualname_of(fn)} <- return {ast.unparse(call)[:60]}")
+            return list(prologue) + body
         result = None
         if shape in ("assign", "return"):
             result = "result" + suffix
